@@ -1026,7 +1026,13 @@ class Interp:
         s = smt.simp(i)
         if z3.is_int_value(s):
             return items[s.as_long()]
-        raise Unsupported("symbolic index into concrete list")
+        if not items:
+            raise Unsupported("symbolic index into empty concrete list")
+        from . import builtins_ as B
+        r = items[-1]
+        for t in range(len(items) - 2, -1, -1):
+            r = B.ite_val(s == t, (lambda v=items[t]: v), (lambda v=r: v))
+        return r
 
     # ------------------------------------------------------------------
     # delegation to the builtin layer
